@@ -1,6 +1,7 @@
 (* C10 -- property theorems only. *)
 From Coq Require Import ZArith List Bool.
-From WNTRV Require Import Lib.Sched C10.Proofs C10.Invariant.
+From Coq Require Import Sorted.
+From WNTRV Require Import Lib.Sched C10.Proofs C10.Invariant C10.Times.
 Import ListNotations.
 Local Open Scope Z_scope.
 
@@ -28,9 +29,17 @@ Theorem C10_restart_equiv_sim_time_controls : forall g D1 D f1 f2 tr1 s1 tr2 s2,
   steps f2 g D (restart_state g s1) = Some (tr2, s2) ->
   steps (f1 + f2) g D (init_state g) = Some (tr1 ++ tr2, s2).
 Proof. exact restart_equiv_simple. Qed.
+(* the solved times of a run strictly increase -- a time is never revisited, neither in one run nor across a pause -- for sim-time controls *)
+Theorem C10_times_strictly_increasing : forall g D f tr s, simple_cfg g -> steps f g D (init_state g) = Some (tr, s) ->
+  StronglySorted Z.lt (map fst tr) /\ forall e, In e tr -> 0 <= fst e.
+Proof. exact run_times_increasing. Qed.
+Theorem C10_continued_times_after_pause : forall g D f s tr s', simple_cfg g -> after_state g s -> steps f g D s = Some (tr, s') ->
+  StronglySorted Z.lt (map fst tr) /\ (forall e, In e tr -> match s with (_, prev, _, _, _) => prev < fst e end).
+Proof. intros g D f s tr s' Hg. exact (steps_times_increasing g D Hg f s tr s'). Qed.
 Theorem C10_fuel_irrelevant : forall g D f k s r, steps f g D s = Some r -> steps (f + k) g D s = Some r.
 Proof. exact steps_fuel_mono. Qed.
 Print Assumptions C10_pause_continue.
 Print Assumptions C10_restart_equiv_partial.
 Print Assumptions C10_rule_index_invariant.
+Print Assumptions C10_times_strictly_increasing.
 Print Assumptions C10_restart_equiv_sim_time_controls.
